@@ -46,6 +46,43 @@ type FuncResult struct {
 
 // splitConj splits a Bool term into its top-level conjuncts.
 func splitConj(t Term) []Term {
+	// guarded conjunctions: (or g1 .. (and c1 .. cn)) and (=> g (and ..)) are split per conjunct
+	if strings.HasPrefix(t.S, "(or ") {
+		parts := splitArgs(t.S)
+		andIdx := -1
+		for i, p := range parts[1:] {
+			if strings.HasPrefix(p, "(and ") {
+				if andIdx >= 0 {
+					andIdx = -2
+					break
+				}
+				andIdx = i + 1
+			}
+		}
+		if andIdx > 0 {
+			var others []Term
+			for i, p := range parts[1:] {
+				if i+1 != andIdx {
+					others = append(others, Term{p, SBool})
+				}
+			}
+			var out []Term
+			for _, c := range splitConj(Term{parts[andIdx], SBool}) {
+				out = append(out, or(append(append([]Term{}, others...), c)...))
+			}
+			return out
+		}
+	}
+	if strings.HasPrefix(t.S, "(=> ") {
+		parts := splitArgs(t.S)
+		if len(parts) == 3 && strings.HasPrefix(parts[2], "(and ") {
+			var out []Term
+			for _, c := range splitConj(Term{parts[2], SBool}) {
+				out = append(out, implies(Term{parts[1], SBool}, c))
+			}
+			return out
+		}
+	}
 	if strings.HasPrefix(t.S, "(and ") {
 		parts := splitArgs(t.S)
 		var out []Term
@@ -55,6 +92,16 @@ func splitConj(t Term) []Term {
 		return out
 	}
 	return []Term{t}
+}
+
+// obligeAssumed: obligations whose goal is assumed afterwards (preconditions of callees, assert
+// hints, earlier ensures): later obligations are only as good as these, which is recorded.
+func (vc *VC) obligeAssumed(kind, name string, guard, goal Term, cl *Clause) {
+	before := len(vc.obls)
+	vc.obligeSplit(kind, name, guard, goal, cl)
+	for _, o := range vc.obls[before:] {
+		vc.deps = append(vc.deps, o.Name)
+	}
 }
 
 func (vc *VC) obligeSplit(kind, name string, guard, goal Term, cl *Clause) {
@@ -176,15 +223,21 @@ func verifyFunction(L *Loaded, fn *ssa.Function, fs *FuncSpec) (res *FuncResult)
 			what = fmt.Sprintf("%s #%d", what, seen[what])
 		}
 		nb := len(vc.obls)
-		if hasPanics {
+		// implicit run-time panics (bounds, nil, ...) must be unreachable; declared panics are the
+		// explicit panic statements and the panics of callees
+		implicit := !strings.HasPrefix(e.What, "panic")
+		if hasPanics && !implicit {
 			vc.oblige("panics=>", fmt.Sprintf("%s#panics=>[%s]", fname, what), e.Cond, P, e.Pos)
 		} else {
 			vc.oblige("safety", fmt.Sprintf("%s#safe[%s]", fname, what), e.Cond, tFalse, e.Pos)
 		}
-		if e.NAss > 0 && !hasPanics {
+		if e.NAss > 0 && (!hasPanics || implicit) {
 			for _, o := range vc.obls[nb:] {
 				o.NAss = e.NAss
 			}
+		}
+		if implicit {
+			continue // nothing to say about the state of an exit that is proved unreachable
 		}
 		if fs.Flags["xpure"] {
 			if e.St.epoch != 0 {
@@ -300,7 +353,7 @@ func (vc *VC) checkExit(fs *FuncSpec, fname, suffix string, exits []Exit, args [
 		resList = append(resList, v)
 	}
 	full := append(append([]Val{}, args...), resList...)
-	vc.obls = append(vc.obls, &Obl{Name: fname + "#cover(exit)" + suffix, Kind: "cover", Guard: cond, Goal: tTrue, NAss: len(vc.asserts), Cover: true})
+	vc.obls = append(vc.obls, &Obl{Name: fname + "#cover(exit)" + suffix, Kind: "cover", Guard: cond, Goal: tTrue, NAss: len(vc.asserts), Cover: true, Group: fmt.Sprintf("%s@%d", fname, exits[0].Pos)})
 	if hasPanics {
 		vc.oblige("panics<=", fmt.Sprintf("%s#panics<=[normal exit]%s", fname, suffix), cond, not(P), 0)
 	}
@@ -319,7 +372,9 @@ func (vc *VC) checkExit(fs *FuncSpec, fname, suffix string, exits []Exit, args [
 		if cl.Kind == "ensures" {
 			if cf := vc.clauseFn(cl); cf != nil {
 				r := vc.evalSpec(cf, full, st, st0)
-				vc.obligeSplit("post", fmt.Sprintf("%s#post[%s]%s", fname, clauseLabel(cl, k), suffix), cond, r.T, cl)
+				// ensures clauses are proved in order; a later one may use the earlier ones
+				vc.obligeAssumed("post", fmt.Sprintf("%s#post[%s]%s", fname, clauseLabel(cl, k), suffix), cond, r.T, cl)
+				vc.assume(implies(cond, r.T))
 			}
 		}
 	}
